@@ -4,6 +4,8 @@ import (
 	"math/rand/v2"
 	"regexp"
 	"strings"
+
+	"github.com/gookit/rux"
 )
 
 // ---------------------------------------------------------------------------
@@ -40,11 +42,14 @@ var classes = []*Class{
 	{ID: "any-ac", VarName: "any", Re: `[a-c]+`, Full: `[a-c]+`, Samples: []string{"a", "abc", "cab"}, Near: []string{"d", "ab1", "x.y"}},
 	{ID: "all-word", VarName: "all", Re: `\w+`, Full: `\w+`, Samples: []string{"a1", "_c", "abc"}, Near: []string{"a-b", "a/b", ""}},
 	{ID: "num-zero", VarName: "num", Re: `0\d*`, Full: `0\d*`, Samples: []string{"0", "007", "01"}, Near: []string{"1", "12", "a"}},
+	// a user-defined global var (SetGlobalVar is called once, before any router exists)
+	{ID: "gslug", VarName: "slug", Full: `[a-z0-9-]+`, Samples: []string{"a-b", "abc", "v1-0", "007"}, Near: []string{"A", "x.y", "a_b", ""}},
 }
 
 var classByID = map[string]*Class{}
 
 func init() {
+	rux.SetGlobalVar("slug", `[a-z0-9-]+`)
 	for _, c := range classes {
 		c.re = regexp.MustCompile(`^(?:` + c.Full + `)$`)
 		classByID[c.ID] = c
